@@ -614,7 +614,7 @@ def gen_typed(tier, seed_):
         # version 1: no alignment pattern; border 0: no quiet zone), with and without scaling
         for opt in TYPE_OPTS:
             for v in (('M1', 1, 7) if tier == 'quick' else ('M1', 'M4', 1, 2, 6, 7)):
-                for sc in (1, 3) if kind != 'svg' else (1, 2.5):
+                for sc in ((1, 3, 2.5) if opt in ('finder_dark', 'data_light', 'quiet_zone') else (1, 3)) if kind != 'svg' else (1, 2.5):
                     for b in (0, 2):
                         add('typed', kind, v, {opt: 'red', 'scale': sc, 'border': b})
         # two-colour pictures in which ONE type crosses over (a dark type in the light colour, a light type in the dark colour)
